@@ -2820,7 +2820,9 @@ class Env(cabc.MutableMapping):
             # restore the values
             for k, v in old.items():
                 if v is NotImplemented:
-                    self._del_item(k, thread_local=True)
+                    # the body may already have deleted the variable itself
+                    if k in self._d:
+                        self._del_item(k, thread_local=True)
                 else:
                     self._set_item(k, v, thread_local=True)
             if exception is not None:
